@@ -30,8 +30,10 @@ inductive Prim
   | allocFragCopy    -- frontend.c:57    alloc_flex of the in-flight copy of a fragment block
   | submit           -- frontend.c:70    pool->submit (work item allocation, pool status)
   | poolDequeue      -- backend.c:311-316  pool->dequeue returned NULL / worker (compressor) failure
-  | writeBlock       -- backend.c:79     write_data_block: array_append (block_writer.c:52), write_at (:147),
-                     --                  de-duplication read-back (:94) and truncate (:115)
+  | storeLocation    -- block_writer.c:143  store_block_location → array_append (block list growth)
+  | writeAt          -- block_writer.c:147  file->write_at of the block
+  | dedupRead        -- block_writer.c:94   check_file_range_equal: read-back compare of a candidate duplicate
+  | dedupTruncate    -- block_writer.c:115  file->truncate after a duplicate was found
   | growSparseBlock  -- backend.c:93     set_block_size for a sparse data block          (checked)
   | growDataBlock    -- backend.c:114    set_block_size for a data block                 (checked)
   | growSparseTail   -- backend.c:141    set_block_size for an all-zero tail             (RESULT IGNORED)
@@ -51,6 +53,8 @@ inductive Err
   | fault        -- a primitive failed and the code returned its error
   | sequence     -- SQFS_ERROR_SEQUENCE
   | internal     -- SQFS_ERROR_INTERNAL (pool->dequeue returned NULL with status 0, backend.c:315)
+  | nullDeref    -- the C code dereferences a NULL pointer here (frontend.c:171: `append` of 0 bytes with no
+                 --   current block) — undefined behaviour; never reached by the tools (they never append 0 bytes first)
   | fuel         -- artefact of the model: loop fuel exhausted (never in the examples / driver runs)
   deriving DecidableEq, Repr
 
@@ -64,6 +68,8 @@ structure Blk where
   dup : Bool := false        -- (fragments) an identical fragment was stored before
   sparse : Bool := false     -- SQFS_BLK_IS_SPARSE, set by the worker
   hasInode : Bool := true
+  dontDedup : Bool := false  -- SQFS_BLK_DONT_DEDUPLICATE (from begin_file's flags; gensquashfs sort file)
+  dupBlocks : Bool := false  -- the data blocks of this block's file equal a run of blocks written before
   seq : Nat := 0             -- io_seq_num
   deriving DecidableEq, Repr
 
@@ -75,6 +81,8 @@ structure Proc where
   beginCalled : Bool := false
   hasInode : Bool := true
   dontFragment : Bool := false
+  dontDedup : Bool := false      -- SQFS_BLK_DONT_DEDUPLICATE in proc->blk_flags
+  dupBlocks : Bool := false      -- (input of the script) this file's data blocks duplicate earlier ones
   firstFlag : Bool := false      -- SQFS_BLK_FIRST_BLOCK still set in proc->blk_flags
   cur : Option Blk := none       -- blk_current
   fragBlk : Option Blk := none   -- frag_block
@@ -144,10 +152,21 @@ def enqueueBlock (v : Variant) (b : Blk) : M Unit := do
 /-- block_processor.c:10-45, the part that matters for control flow -/
 def worker (b : Blk) : Blk := if b.size = 0 then b else if b.zero then { b with sparse := true } else b
 
-/-- backend.c:46-119 -/
+/-- block_writer.c:125-156 `write_data_block` with `store_block_location` and `deduplicate_blocks`: four fallible
+    operations, each result tested (:144, :148, :98, :115 is the return value) -/
+def writeDataBlock (v : Variant) (b : Blk) : M Unit := do
+  if b.size ≠ 0 ∧ !b.sparse then do                                       -- block_writer.c:138
+    prim v .storeLocation                                                 -- :143
+    prim v .writeAt                                                       -- :147
+  if b.last then                                                          -- :152 deduplicate_blocks
+    if !b.dontDedup ∧ b.dupBlocks then do                                 -- :68 / :79-87 a run of equal hashes exists
+      prim v .dedupRead                                                   -- :94
+      prim v .dedupTruncate                                               -- :115
+
+/-- backend.c:55-128 -/
 def processCompletedBlock (v : Variant) (b : Blk) : M Unit :=
   always (do
-    prim v .writeBlock                                                    -- backend.c:70-75
+    writeDataBlock v b                                                    -- backend.c:79-84
     modP (fun p => { p with written := p.written + 1 })
     if b.sparse then
       if b.hasInode then prim v .growSparseBlock                        -- backend.c:79-87
@@ -164,8 +183,12 @@ def processCompletedFragment (v : Variant) (frag : Blk) : M Unit := do
     if frag.hasInode then onError (prim v .growSparseTail) releaseOld
     modP releaseOld
   else do
-    prim v .fragLookup                                                    -- backend.c:142-155
-    if frag.dup then modP releaseOld                                      -- backend.c:157-166
+    -- backend.c:155-181: hash lookup unless SQFS_BLK_DONT_DEDUPLICATE; a lookup error (read-back of the
+    -- candidate's fragment block failed) takes `fail:`, which releases the fragment
+    let found ← (if frag.dontDedup then pure false else do
+                   onError (prim v .fragLookup) releaseOld
+                   pure frag.dup)
+    if found then modP releaseOld
     else do
       let p ← getP
       match p.fragBlk with                                                -- backend.c:169-181
@@ -245,15 +268,17 @@ def getNewBlock (v : Variant) : Nat → M Unit
 def addSentinel (v : Variant) (fuel : Nat) : M Unit := do
   getNewBlock v fuel
   let p ← getP
-  enqueueBlock v { size := 0, last := true, hasInode := p.hasInode, first := p.firstFlag }
+  enqueueBlock v { size := 0, last := true, hasInode := p.hasInode, first := p.firstFlag,
+                   dontDedup := p.dontDedup, dupBlocks := p.dupBlocks }
 
 /-- frontend.c:84-109 -/
-def beginFile (v : Variant) (hasInode dontFragment : Bool) : M Unit := do
+def beginFile (v : Variant) (hasInode dontFragment dontDedup dupBlocks : Bool) : M Unit := do
   let p ← getP
   if p.beginCalled then fail .sequence
   else do
     if hasInode then prim v .inodeAlloc
-    modP (fun p => { p with beginCalled := true, hasInode := hasInode, dontFragment := dontFragment, firstFlag := true })
+    modP (fun p => { p with beginCalled := true, hasInode := hasInode, dontFragment := dontFragment,
+                            dontDedup := dontDedup, dupBlocks := dupBlocks, firstFlag := true })
 
 /-- frontend.c:111-180.  `zero`: the appended bytes are all zero; `dup`: (only for a tail) an identical
     fragment was stored before. -/
@@ -267,12 +292,13 @@ def appendLoop (v : Variant) (zero dup : Bool) : Nat → Nat → M Unit
                     modP (fun p => { p with cur := none })
                     enqueueBlock v b
                   else pure ()
-      | none => pure ()
+      | none => fail .nullDeref                                           -- frontend.c:171 `proc->blk_current->size`
     else do
       let p ← getP
       if p.cur.isNone then do                                             -- frontend.c:129-140
         getNewBlock v (fuel + 1)
-        modP (fun p => { p with cur := some { size := 0, first := p.firstFlag, hasInode := p.hasInode }, firstFlag := false })
+        modP (fun p => { p with cur := some { size := 0, first := p.firstFlag, hasInode := p.hasInode,
+                                              dontDedup := p.dontDedup, dupBlocks := p.dupBlocks }, firstFlag := false })
       let p ← getP
       match p.cur with
       | none => fail .internal
@@ -332,7 +358,7 @@ def finish (v : Variant) (fuel : Nat) : M Unit := do
     sync v fuel
 
 inductive Api
-  | beginFile (hasInode dontFragment : Bool)
+  | beginFile (hasInode dontFragment dontDedup dupBlocks : Bool)
   | append (size : Nat) (zero dup : Bool)
   | endFile
   | sync
@@ -342,7 +368,7 @@ inductive Api
 def FUEL : Nat := 4096
 
 def call (v : Variant) (fuel : Nat) : Api → M Unit
-  | .beginFile i d => beginFile v i d
+  | .beginFile i d n b => beginFile v i d n b
   | .append n z d => append v n z d fuel
   | .endFile => endFile v fuel
   | .sync => sync v fuel
